@@ -103,10 +103,15 @@ func c18parse(ctx context.Context, query string) (wire.PreparedStatements, error
 	fn := func(ctx context.Context, w wire.DataWriter, params []wire.Parameter) error {
 		st.recheck("at a later statement callback")
 		if len(params) > 0 {
-			tag := string(params[0].Value())
+			// the Bind is identified by the statement's own query text (every Parse/Bind pair of the
+			// history uses a fresh text), never by the parameter bytes under test
+			tag := query
 			want, ok := st.binds[tag]
 			if !ok && st.bad == "" {
-				st.bad = fmt.Sprintf("statement received parameters of an unknown Bind: first value %s", hexs(params[0].Value()))
+				st.bad = fmt.Sprintf("statement %q received parameters although no Bind was sent for it: first value %s", trim(query, 40), hexs(params[0].Value()))
+			}
+			if ok && len(params) != len(want) && st.bad == "" {
+				st.bad = fmt.Sprintf("portal of statement %q executes with %d parameters, its Bind sent %d", trim(query, 40), len(params), len(want))
 			}
 			if ok {
 				st.lateExec++
@@ -234,8 +239,8 @@ func (ch c18) runCase(c *core.Ctx, env *hs.Env, L int, rng *core.Rng, idx int) {
 			for j := rng.Intn(5); j > 0; j-- {
 				oids = append(oids, uint32(rng.Intn(5000)))
 			}
-			tag := fmt.Sprintf("bind-%d-%d", idx, m)
-			params := [][]byte{[]byte(tag)}
+			tag := q
+			params := [][]byte{[]byte(fmt.Sprintf("bind-%d-%d", idx, m))}
 			budget := L - 200
 			for j := rng.Intn(4); j > 0; j-- {
 				sz := sizeFor()
@@ -248,8 +253,9 @@ func (ch c18) runCase(c *core.Ctx, env *hs.Env, L int, rng *core.Rng, idx int) {
 			st.binds[tag] = params
 			pname := fmt.Sprintf("po%d", m)
 			portals = append(portals, pname)
-			in = append(in, pg.Parse("s", q, oids)...)
-			in = append(in, pg.Bind(pname, "s", nil, params, nil)...)
+			sname := fmt.Sprintf("s%d", m)
+			in = append(in, pg.Parse(sname, q, oids)...)
+			in = append(in, pg.Bind(pname, sname, nil, params, nil)...)
 			in = append(in, pg.Sync()...)
 			shape += "PB "
 		case k < 70 && len(portals) > 0: // late execution of an old portal
